@@ -132,6 +132,23 @@ def selfAtRootAny : UseTrees → Bool
   | .cons t ts => selfAtRoot t || selfAtRootAny ts
 end
 
+mutual
+/-- `flatten_use_tree` as it stood on the pinned tree (before fix 5daff39): a
+    `self` leaf is pushed like any other identifier -/
+def flattenPinned : UseTree → Option (List Path)
+  | .path i t => (flattenPinned t).map (fun ps => ps.map (fun p => i :: p))
+  | .name i => some [[i]]
+  | .rename _ _ => none
+  | .glob => none
+  | .group ts => flattenPinnedAll ts
+def flattenPinnedAll : UseTrees → Option (List Path)
+  | .nil => some []
+  | .cons t ts =>
+    match flattenPinned t, flattenPinnedAll ts with
+    | some a, some b => some (a ++ b)
+    | _, _ => none
+end
+
 /-! ## the use item the macro emits, seen by `declare_import`
 
 `declare_import` binds, for every path, its last segment in the scope where
